@@ -9,6 +9,11 @@ CHECKS = {
  "C02": ("fam-cw20", "explicit-state BFS over real cw20-base with every expiry kind and block advance; reference ledger decides which accepted calls were authorised; message oracle for Send/SendFrom", "5 C02"),
  "C13": ("fam-cw20", "explicit-state BFS over real cw20-base mint/burn/update-minter histories to fixpoint; reference {minter, cap}", "5 C13"),
  "C19": ("fam-cw20", "explicit-state BFS over allowance histories to fixpoint, three-view agreement in every state, migration from pre-0.14 layout applied at every reachable state", "5 C19"),
+ "C03": ("fam-cw3", "explicit-state BFS over real cw3-fixed and cw3-flex(+cw4-group) to fixpoint per configuration; status compared in every state with an independent exact-arithmetic outcome function over all completions of the outstanding votes", "5 C03"),
+ "C04": ("fam-cw3", "complete enumeration of the tally lattice of cw3::Proposal with backward dynamic programming (AG/EF over vote completions) plus a 2^64 boundary grid; exact u128 arithmetic oracle", "5 C04"),
+ "C05": ("fam-cw3", "explicit-state BFS with fault injection (failing receiver) and re-entrant proposals in the kernel; dispatch-trace oracle (at most once, as proposed, only while Passed, authorised) and status automaton", "5 C05"),
+ "C06": ("fam-cw3", "explicit-state BFS placing group updates before/in/after the proposal block; block-start snapshot reference vs ballots and totals", "5 C06"),
+ "C15": ("fam-cw3", "explicit-state BFS over deposit histories with real bank/cw20 balances vs deposit ledger; bounded exhaustive reachability search (EF) for recoverability of failed deposits", "5 C15"),
 }
 TODO = {}
 props = [json.loads(l) for l in open('/verif/properties.jsonl')]
@@ -40,6 +45,7 @@ m = {
  "engines": [
    {"name": "mc", "path": "/verif/harness/mc", "serves_properties": [c["property_id"] for c in checks], "kind_free_text": "deterministic cloneable mini-chain kernel + level-synchronous parallel BFS explorer + evidence/replay/known-finding reporting"},
    {"name": "fam-cw20", "path": "/verif/harness/fam-cw20", "serves_properties": ["C01","C02","C13","C19"], "kind_free_text": "cw20-base alphabets, reference ledger and oracles"},
+   {"name": "fam-cw3", "path": "/verif/harness/fam-cw3", "serves_properties": ["C03","C04","C05","C06","C15"], "kind_free_text": "cw3-fixed/cw3-flex(+cw4-group, cw20-base, sink) alphabets, exact threshold spec, tally-lattice DP, dispatch and deposit oracles"},
  ],
  "checks": checks,
  "not_applicable": na,
